@@ -172,9 +172,19 @@ static void report_difference(Path p, const FileRef& f, const Cuts& cuts, const 
     V.report(key, detail, spec_of(p, f, culprit.size() < cuts.size() ? "c:" + cuts_text(culprit) : seg));
 }
 
+static bool g_want_sample = false;
+
 static void evaluate(Path p, const FileRef& f, const Cuts& cuts, const std::string& seg) {
     const Result& base = baseline(p, f);
     Result r = run(p, f, cuts);
+    if (g_want_sample) {
+        g_want_sample = false;
+        std::string where;
+        for (size_t i = 0; i < cuts.size() && i < 4; ++i) where += std::string(i ? "," : "") + structure(f).name(cuts[i]);
+        benum::sample(std::string(PATH_NAME[p]) + " path, " + g_seeds[f.seed].name + "[" + std::to_string(f.len) + " of " + std::to_string(g_seeds[f.seed].data.size()) + " bytes] cut at [" +
+                      cuts_text(cuts).substr(0, 60) + (cuts.size() > 12 ? ",..." : "") + "] (" + where + (cuts.size() > 4 ? ",..." : "") + "): " + std::to_string(cuts.size() + 1) + " pieces -> " +
+                      (r.ok() ? std::to_string(r.objs.size()) + " objects, eof" : r.end) + (r == base ? " = unsplit" : " DIFFERS from unsplit"));
+    }
     ++C["evaluations"];
     ++C[p == DIRECT ? "evaluations_direct" : "evaluations_reader"];
     const Structure& st = structure(f);
@@ -240,10 +250,12 @@ static bool make_case(Family fam, uint32_t n, uint64_t idx, bool pairs_enabled, 
 
 static void run_job(const Args& a, Job& job) {
     job.finish();
+    benum::Sampler sampler(a.seed, 1, job.total / 3 + 1);
     auto body = [&](uint64_t rank) {
         size_t fi = static_cast<size_t>(std::upper_bound(job.start.begin(), job.start.end(), rank) - job.start.begin()) - 1;
         const FileRef& f = job.files[fi];
         Cuts cuts; std::string seg;
+        if (a.shard == 1 && rank > job.total / 2 && sampler.want(rank)) g_want_sample = true;
         if (!make_case(job.fam, f.len, rank - job.start[fi], job.pairs_too[fi], cuts, seg)) { ++C["segmentations_run_in_another_family"]; return; }
         evaluate(job.path, f, cuts, seg);
     };
@@ -299,7 +311,8 @@ static void part_unsplit(const Args& a, const std::vector<FileRef>& files) {
                 ++C["valid_seeds_not_decoded_as_the_generator_expects"];
                 benum::note("seed " + s.name + " in one piece: " + d.brief() + " - generator expects " + std::to_string(s.expect.size()) + " objects" + (d.objs.size() == s.expect.size() ? ", first difference: " + [&] { for (size_t i = 0; i < d.objs.size(); ++i) if (d.objs[i] != s.expect[i]) return d.objs[i] + " <> " + s.expect[i]; return std::string(); }() : ""));
             } else ++C["seeds_decoded_as_the_generator_expects"];
-            if (a.shard == 0) benum::sample(s.name + " (" + std::to_string(f.len) + " bytes) unsplit -> " + d.brief().substr(0, 330));
+            if (a.shard == 0 && (s.name == "opl-mixed-noeol" || s.name == "opl-error-line3" || s.name == "xml-changesets" || s.name == "o5c-hist-jump" || s.name == "pbf-plain-zlib"))
+                benum::sample(s.name + " (" + std::to_string(f.len) + " bytes) unsplit -> " + d.brief().substr(0, 330));
         }
     };
     auto on_death = [&](uint64_t rank, const std::string& what, const std::string& err) {
